@@ -164,7 +164,8 @@ fn inject_and_run(conn: &mut Conn<'_, '_>, op: u64, idx: u64, fault: u64, kind: 
         dead_handle_probe(conn);
         dead_handle_probe(conn);
     } else if !conn.is_connected() {
-        let ok = matches!(res, Res::PacketTooLarge) && op <= 2;
+        // (after disconnect() - op 8 - the handle may be closed whatever it returned)
+        let ok = matches!(res, Res::PacketTooLarge) && op <= 2 || op == 8;
         if !ok {
             with(|w| {
                 w.violate(
